@@ -10,7 +10,7 @@ def K():
     return KC
 
 M32 = 1 << 32
-KEEP = ('CFGMODE', 'CALRES', 'CAL', 'INERT', 'FACTORYHOOK', 'RESTART', 'CFGFLASH', 'OPMODE', 'ACCEPT')
+KEEP = ('CFGMODE', 'CALRES', 'CAL', 'INERT', 'FACTORYHOOK', 'RESTART', 'CFGFLASH', 'OPMODE', 'ACCEPT', 'START')
 
 class InMap(dict):
     """event name -> model kind; real-schedule events (ADV, IN) are not model events"""
@@ -121,8 +121,8 @@ def req_fields(p):
 # ------------------------------------------------------------------------------------------------
 class C12(F.PropCheck):
     pid = 'C12'; gen_groups = ['C12Consts']; prop_file = 'Properties_C12'
-    IN = InMap({'BOOT': 0, 'CONNCB': 1, 'ITER': 2, 'SRV': 3, 'NOTIFY': 4, 'TICK': 5, 'TIME': 6, 'HOLD': 7, 'APT': 8, 'RSPOKE': 9})
-    OUT = {0: 'CFGMODE', 1: 'CALRES', 2: 'CAL', 3: 'INERT', 4: 'FACTORYHOOK', 5: 'RESTART', 6: 'CFGFLASH', 7: 'OPMODE', 8: 'ACCEPT'}
+    IN = InMap({'BOOT': 0, 'CONNCB': 1, 'ITER': 2, 'SRV': 3, 'NOTIFY': 4, 'TICK': 5, 'TIME': 6, 'HOLD': 7, 'APT': 8, 'RSPOKE': 9, 'MBOOT': 10})
+    OUT = {0: 'CFGMODE', 1: 'CALRES', 2: 'CAL', 3: 'INERT', 4: 'FACTORYHOOK', 5: 'RESTART', 6: 'CFGFLASH', 7: 'OPMODE', 8: 'ACCEPT', 9: 'START'}
     quick_cases = 2400; thorough_cases = 60000
     trusted_extra = ['C12 driver harness/drv/c12.c: real user_main.c/user_init + all device sources; linker --wrap of system_restart (ends the case) and '
                      'supla_esp_gpio_state_cfgmode (prints CFGMODE) and ets_delay_us (abstract-schedule cases: relay busy-waits take no virtual time); NOTIFY/TICK/TIME/APT call the real handlers / timer callbacks directly',
@@ -138,6 +138,12 @@ class C12(F.PropCheck):
 
     def build_impl(self):
         V = F.VERIF
+        # second, small binary: the real user_main.c compiled for an MQTT-capable build, callees of user_init() stubbed (boot decision only);
+        # the main driver replaces its per-case child process by it for the event MBOOT
+        bexe, blog = F.build_c('c12boot', os.path.join(V, 'harness', 'drv', 'c12_boot.c'), config='mqtt',
+                               sources=[os.path.join(F.REPO, 'src', 'user', 'user_main.c')], extra_flags=['-DSPI_FLASH_SIZE_MAP=6'])
+        if bexe is None: return None, blog
+        os.environ['C12_BOOT_EXE'] = bexe
         return F.build_c('c12', os.path.join(V, 'harness', 'drv', 'c12.c'), config='devcfg',
                          extra_srcs=[os.path.join(F.REPO, 'src', 'user', 'user_main.c'), os.path.join(V, 'harness', 'doubles', 'c12_extra.c')],
                          extra_flags=['-DSPI_FLASH_SIZE_MAP=2', '-DVERIF_REAL_USER_MAIN'],
@@ -395,6 +401,19 @@ class C12(F.PropCheck):
         nreal = n // 8
         for i in range(n - nreal): cases.append(self.gen_abstract(rng, '%sa%d' % (tier[0], i)))
         for i in range(nreal): cases.append(self.gen_real(rng, '%sr%d' % (tier[0], i)))
+        cases += self.gen_mboot(tier)
+        return cases
+
+    def gen_mboot(self, tier):
+        """boot decision of the MQTT-capable build, exhaustively: MQTT enabled x NO_AUTH x SSID/WIFI_PWD/Server/Email=Username/Password
+        empty or set (128 stored configurations; Email/Username are one field of SuplaEspCfg).  DEVICE_LOCKED (second guard of user_init: a locked MQTT device opens configuration
+        mode although its configuration is complete) is outside the property text; it is generated only once the class is a listed finding."""
+        locked = [0, 1] if any(key == 'mqtt-device-locked-boot' for key, _ in F.load_findings().get('C12', [])) else [0]
+        cases = []
+        for lk in locked:
+            for a in range(128):
+                ints = [(a >> 0) & 1, (a >> 1) & 1, lk] + [(a >> j) & 1 for j in range(2, 7)]
+                cases.append(F.Case('%smb%d_%d' % (tier[0], lk, a), [('MBOOT', ints, b'')], ['abstract', 'mboot']))
         return cases
 
     # ---------------- normalisation / comparison
@@ -438,6 +457,7 @@ class C12(F.PropCheck):
     # ---------------- monitor: the property text on the implementation trace (no model involved)
     def monitor(self, case, status, outs):
         k = K(); v = []
+        if case.evs and case.evs[0][0] == 'MBOOT': return self.monitor_mboot(case, status, outs)
         if not case.evs or case.evs[0][0] != 'BOOT': return v
         b, boot32, blank, flashcfg = parse_boot(case.evs[0][1])
         segs = {}; cur = None
@@ -593,7 +613,31 @@ class C12(F.PropCheck):
             if any(o[0] == 'RESTART' for o in seg): break
         return v
 
+    def monitor_mboot(self, case, status, outs):
+        """MQTT-capable build: configuration mode at boot <=> the stored configuration is incomplete.  Complete (property text): Wi-Fi name
+        and password and the server / broker address are set and, SUPLA protocol: the e-mail address; MQTT: user name and password
+        unless the broker is configured without authentication."""
+        a = (list(case.evs[0][1]) + [0] * 8)[:8]
+        en, noauth, locked, ssid, wpwd, server, user, pw = [1 if x else 0 for x in a]
+        email = user      # Email / Username are one field of the stored configuration (anonymous union)
+        complete = bool(ssid and wpwd and server and ((noauth or (user and pw)) if en else email))
+        desc = 'stored configuration: %s, Wi-Fi name %s, Wi-Fi password %s, server %s, e-mail/user name %s, password %s' % (
+            ('MQTT' + (' (broker without authentication)' if noauth else '') + (' (device locked)' if locked else '')) if en else 'SUPLA protocol',
+            *[('set' if x else 'empty') for x in (ssid, wpwd, server, user, pw)])
+        v = []
+        if status != 'ok': v.append('boot of the MQTT-capable build ended with "%s" (%s)' % (status, desc)); return v
+        ncfg = sum(1 for o in outs if o[0] == 'CFGMODE'); starts = [o[1][0] if o[1] else 0 for o in outs if o[0] == 'START']
+        if ncfg and complete:
+            if en and locked: v.append('configuration mode started at boot with a complete configuration of a locked MQTT device (%s) [mqtt-locked-boot]' % desc)
+            else: v.append('configuration mode started at boot although the configuration is complete (%s)' % desc)
+        if not ncfg and not complete: v.append('normal start at boot although the configuration is incomplete (%s)' % desc)
+        if ncfg and starts: v.append('configuration mode and a normal start at the same boot (%s)' % desc)
+        if not ncfg and starts != [2 if en else 1]:
+            v.append('boot without configuration mode started %s instead of the %s client (%s)' % (starts, 'MQTT' if en else 'SUPLA', desc))
+        return v
+
     def finding_key(self, case, what):
+        if '[mqtt-locked-boot]' in what: return 'mqtt-device-locked-boot'
         if '[rs-setvalue-times]' in what: return 'rs-setvalue-times'
         if '[rs-setvalue-aborts-autocal]' in what: return 'rs-setvalue-aborts-autocal'
         if '[u32-wrap]' in what: return 'toggle-gap-u32-wrap'
